@@ -1,3 +1,692 @@
+//! Sim-A: the "compile service" - caller threads x process-global name state x hash seeds
+//! (DESIGN 2.1). Decides C16. Built with `--cfg qrlew_verif`: the name counter's lock, the
+//! per-thread implementation tables and the preemption points inside qrlew belong to shuttle,
+//! whose seeded scheduler decides every interleaving.
+mod workload;
+
+use qrlew::{
+    ast,
+    builder::{Ready, With},
+    data_type::{DataType, DataTyped},
+    dialect_translation::RelationWithTranslator,
+    namer,
+    relation::{Relation, Variant as _},
+    sql::parse,
+};
+use serde::{Deserialize, Serialize};
+use serde_json::json;
+use simcommon::{
+    engine::{DrawMode, DrawPlan, Engine},
+    scenario::{Scenario, TableSpec},
+    translator::SimTranslator,
+};
+use std::collections::BTreeMap;
+use std::io::Write;
+use std::sync::{Arc, Mutex};
+use workload::{Op, Sched, Workload};
+
+#[derive(Clone, Debug, Default, Serialize, Deserialize, PartialEq)]
+pub struct Compiled {
+    pub ok: bool,
+    pub err: String,
+    pub display: String,
+    pub sql: String,
+    pub schema: String,
+}
+
+#[derive(Clone)]
+pub struct Reference {
+    pub c: Compiled,
+    pub relation: Option<Relation>,
+    pub has_random: bool,
+    pub canon_display: String,
+    pub canon_sql: String,
+}
+
+fn schema_string(r: &Relation) -> String {
+    r.schema().iter().map(|f| format!("{}:{}", f.name(), f.data_type())).collect::<Vec<_>>().join(", ")
+}
+
+fn compile(sc_rel: &qrlew::hierarchy::Hierarchy<Arc<Relation>>, q: &str) -> (Compiled, Option<Relation>) {
+    // a panic inside the compiler is an outcome like an error (totality is not C16's subject,
+    // but "panics under one history and not under another" is a determinism mismatch)
+    match std::panic::catch_unwind(std::panic::AssertUnwindSafe(|| compile_inner(sc_rel, q))) {
+        Ok(x) => x,
+        Err(p) => {
+            let msg = if let Some(s) = p.downcast_ref::<String>() { s.clone() } else if let Some(s) = p.downcast_ref::<&str>() { s.to_string() } else { "<panic>".into() };
+            if msg.starts_with("verif: caller abandoned") {
+                std::panic::resume_unwind(p);
+            }
+            (Compiled { ok: false, err: format!("panic: {}", first_line(&msg)), ..Default::default() }, None)
+        }
+    }
+}
+
+fn compile_inner(sc_rel: &qrlew::hierarchy::Hierarchy<Arc<Relation>>, q: &str) -> (Compiled, Option<Relation>) {
+    let parsed = match parse(q) {
+        Ok(p) => p,
+        Err(e) => return (Compiled { ok: false, err: format!("parse: {}", first_line(&e.to_string())), ..Default::default() }, None),
+    };
+    match Relation::try_from(parsed.with(sc_rel)) {
+        Ok(r) => {
+            let c = Compiled {
+                ok: true,
+                err: String::new(),
+                display: format!("{}", r),
+                sql: ast::Query::from(&r).to_string(),
+                schema: schema_string(&r),
+            };
+            (c, Some(r))
+        }
+        Err(e) => (Compiled { ok: false, err: format!("relation: {}", first_line(&e.to_string())), ..Default::default() }, None),
+    }
+}
+
+fn first_line(s: &str) -> String {
+    s.lines().next().unwrap_or("").chars().take(160).collect()
+}
+
+/// Rename generated names by order of first appearance: `map_x7k2` -> `map#0`.
+/// Generated names are `<prefix>_<4 chars of base 37>`.
+pub fn canonicalise(text: &str) -> String {
+    const PREFIXES: [&str; 9] = ["map", "reduce", "join", "set", "field", "values", "table", "FILTER_", "left_"];
+    let mut out = String::with_capacity(text.len());
+    let mut seen: BTreeMap<String, usize> = BTreeMap::new();
+    let chars: Vec<char> = text.chars().collect();
+    let mut i = 0;
+    while i < chars.len() {
+        let c = chars[i];
+        if c.is_ascii_alphabetic() || c == '_' {
+            let start = i;
+            while i < chars.len() && (chars[i].is_ascii_alphanumeric() || chars[i] == '_') {
+                i += 1;
+            }
+            let tok: String = chars[start..i].iter().collect();
+            let mut replaced = false;
+            for p in PREFIXES.iter() {
+                let pre = format!("{}_", p);
+                if tok.starts_with(&pre) && tok.len() == pre.len() + 4 {
+                    let n = seen.len();
+                    let id = *seen.entry(tok.clone()).or_insert(n);
+                    out.push_str(&format!("{}#{}", p, id));
+                    replaced = true;
+                    break;
+                }
+            }
+            if !replaced {
+                out.push_str(&tok);
+            }
+        } else {
+            out.push(c);
+            i += 1;
+        }
+    }
+    out
+}
+
+fn has_random(q: &str) -> bool {
+    let l = q.to_lowercase();
+    l.contains("random(") || l.contains("rand(")
+}
+
+fn has_set_op(q: &str) -> bool {
+    let l = q.to_lowercase();
+    l.contains(" union ") || l.contains(" except ") || l.contains(" intersect ")
+}
+
+#[derive(Clone, Debug, Serialize, Deserialize, PartialEq)]
+pub struct Violation {
+    pub property: String,
+    pub invariant: String,
+    pub class: String,
+    pub detail: String,
+    pub witness: serde_json::Value,
+}
+
+#[derive(Default)]
+struct Shared {
+    events: Vec<String>,
+    violations: Vec<Violation>,
+    faults: BTreeMap<String, u64>,
+    probes: BTreeMap<String, u64>,
+    ids: BTreeMap<String, Vec<usize>>,
+}
+
+fn render_sim(r: &Relation) -> String {
+    ast::Query::from(RelationWithTranslator(r, SimTranslator::default())).to_string()
+}
+
+fn hash64(s: &str) -> u64 {
+    let mut h: u64 = 0xcbf29ce484222325;
+    for b in s.bytes() {
+        h ^= b as u64;
+        h = h.wrapping_mul(0x100000001b3);
+    }
+    h
+}
+
+struct Ctx {
+    wl: Workload,
+    relations: qrlew::hierarchy::Hierarchy<Arc<Relation>>,
+    refs: Vec<Reference>,
+    shared: Arc<Mutex<Shared>>,
+}
+
+fn violation(ctx: &Ctx, invariant: &str, class: &str, detail: String, witness: serde_json::Value) {
+    let mut s = ctx.shared.lock().unwrap();
+    if s.violations.len() < 8 {
+        s.violations.push(Violation { property: "C16".into(), invariant: invariant.into(), class: class.into(), detail, witness });
+    }
+}
+
+fn check_against_ref(ctx: &Ctx, who: &str, qi: usize, c: &Compiled, r: &Option<Relation>) {
+    let rf = &ctx.refs[qi];
+    let q = &ctx.wl.queries[qi];
+    if c.ok != rf.c.ok {
+        violation(
+            ctx,
+            "parse_outcome",
+            "unclassified",
+            format!("{}: `{}` {} here but {} in the quiescent reference pass ({} / {})", who, q, if c.ok { "compiles" } else { "fails" }, if rf.c.ok { "compiled" } else { "failed" }, c.err, rf.c.err),
+            json!({"query": q, "here": c.err, "reference": rf.c.err}),
+        );
+        return;
+    }
+    if !c.ok {
+        return;
+    }
+    let same_text = c.display == rf.c.display && c.sql == rf.c.sql && c.schema == rf.c.schema;
+    let same_rel = match (r, &rf.relation) {
+        (Some(a), Some(b)) => a == b,
+        _ => true,
+    };
+    if same_text && same_rel {
+        return;
+    }
+    // known finding: queries calling random()/rand() carry a process-global id in their content.
+    // Excused only if everything is equal once generated names are canonicalised.
+    let canon_equal = canonicalise(&c.display) == rf.canon_display && canonicalise(&c.sql) == rf.canon_sql && canonicalise(&c.schema) == canonicalise(&rf.c.schema);
+    let class = if rf.has_random && canon_equal { "random_ids" } else { "unclassified" };
+    let what = if c.schema != rf.c.schema {
+        "output schema"
+    } else if c.sql != rf.c.sql {
+        "rendered SQL"
+    } else if c.display != rf.c.display {
+        "relation text"
+    } else {
+        "relation structure (PartialEq)"
+    };
+    violation(
+        ctx,
+        "parse_differs_from_reference",
+        class,
+        format!("{}: `{}` compiles to a different {} than in the quiescent reference pass", who, q, what),
+        json!({"query": q, "what": what, "here": first_diff(&c.sql, &rf.c.sql), "canonical_forms_equal": canon_equal}),
+    );
+}
+
+fn first_diff(a: &str, b: &str) -> String {
+    let (ac, bc): (Vec<char>, Vec<char>) = (a.chars().collect(), b.chars().collect());
+    let mut i = 0;
+    while i < ac.len() && i < bc.len() && ac[i] == bc[i] {
+        i += 1;
+    }
+    let s = i.saturating_sub(30);
+    format!("...{} | ...{}", ac[s..(i + 40).min(ac.len())].iter().collect::<String>(), bc[s..(i + 40).min(bc.len())].iter().collect::<String>())
+}
+
+fn event(ctx: &Ctx, line: String) {
+    ctx.shared.lock().unwrap().events.push(line);
+}
+
+fn fault(ctx: &Ctx, k: &str) {
+    *ctx.shared.lock().unwrap().faults.entry(k.to_string()).or_default() += 1;
+}
+
+fn probe(ctx: &Ctx, k: &str) {
+    *ctx.shared.lock().unwrap().probes.entry(k.to_string()).or_default() += 1;
+}
+
+fn exec_op(ctx: &Arc<Ctx>, who: &str, op: &Op) {
+    match op {
+        Op::Parse(qi) => {
+            let (c, r) = compile(&ctx.relations, &ctx.wl.queries[*qi]);
+            event(ctx, format!("{} parse q{} ok={} h={:016x}", who, qi, c.ok, hash64(&format!("{}|{}|{}", canonicalise(&c.display), canonicalise(&c.sql), c.schema.len()))));
+            check_against_ref(ctx, who, *qi, &c, &r);
+        }
+        Op::Render(qi) => {
+            if let Some(r) = &ctx.refs[*qi].relation {
+                let a = ast::Query::from(r).to_string();
+                let b = ast::Query::from(r).to_string();
+                event(ctx, format!("{} render q{} h={:016x}", who, qi, hash64(&canonicalise(&a))));
+                if a != b || a != ctx.refs[*qi].c.sql {
+                    violation(
+                        ctx,
+                        "render_not_stable",
+                        "unclassified",
+                        format!("{}: rendering the relation of `{}` twice gives different text (or differs from the reference rendering)", who, ctx.wl.queries[*qi]),
+                        json!({"query": ctx.wl.queries[*qi], "diff": first_diff(&a, &b), "vs_reference": first_diff(&a, &ctx.refs[*qi].c.sql)}),
+                    );
+                }
+            }
+        }
+        Op::Reparse(qi) => {
+            if let Some(r) = &ctx.refs[*qi].relation {
+                let text = ast::Query::from(r).to_string();
+                let (c2, r2) = compile(&ctx.relations, &text);
+                event(ctx, format!("{} reparse q{} ok={}", who, qi, c2.ok));
+                reparse_check(ctx, who, *qi, r, &text, &c2, &r2, false);
+            }
+        }
+        Op::DpRewrite(qi) | Op::PupRewrite(qi) => {
+            if let Some(r) = ctx.refs[*qi].relation.clone() {
+                let sc = ctx.wl.sc.clone();
+                let rel = ctx.relations.clone();
+                let dp = matches!(op, Op::DpRewrite(_));
+                let res = std::panic::catch_unwind(std::panic::AssertUnwindSafe(move || {
+                    if dp {
+                        r.rewrite_with_differential_privacy(&rel, sc.synthetic_data(), sc.privacy_unit(), sc.params.dp()).is_ok()
+                    } else {
+                        r.rewrite_as_privacy_unit_preserving(&rel, sc.synthetic_data(), sc.privacy_unit(), sc.params.dp(), None).is_ok()
+                    }
+                }));
+                event(ctx, format!("{} {} q{} -> {:?}", who, if dp { "dp_rewrite" } else { "pup_rewrite" }, qi, res.as_ref().ok()));
+                fault(ctx, "background_rewrite");
+                if res.is_err() {
+                    probe(ctx, "rewrite_panic");
+                }
+            }
+        }
+        Op::Burn(prefix, n) => {
+            let mut got = vec![];
+            for _ in 0..*n {
+                got.push(namer::new_id(prefix.as_str()));
+            }
+            fault(ctx, "counter_burn");
+            event(ctx, format!("{} burn {} x{}", who, prefix, n));
+            ctx.shared.lock().unwrap().ids.entry(prefix.clone()).or_default().extend(got);
+        }
+        Op::BuildUnnamed => {
+            let t: Relation = Relation::table().schema(vec![("a", DataType::float()), ("b", DataType::integer())].into_iter().collect::<qrlew::relation::Schema>()).size(10).build();
+            let v: Relation = Relation::values().values([1.0, 2.0]).build();
+            fault(ctx, "unnamed_build");
+            event(ctx, format!("{} build_unnamed {} {}", who, t.name().len(), v.name().len()));
+        }
+        Op::Reset => {
+            namer::reset();
+            fault(ctx, "counter_reset");
+            event(ctx, format!("{} reset", who));
+            ctx.shared.lock().unwrap().ids.clear();
+        }
+        Op::Spawn(inner) => {
+            let c2 = ctx.clone();
+            let inner = (**inner).clone();
+            let name = format!("{}+cold", who);
+            fault(ctx, "cold_thread");
+            let h = shuttle::thread::spawn(move || exec_op(&c2, &name, &inner));
+            let _ = h.join();
+        }
+        Op::Abandon(qi, after) => {
+            let q = ctx.wl.queries[*qi].clone();
+            let rel = ctx.relations.clone();
+            qrlew::verif_abandon_after(*after);
+            let res = std::panic::catch_unwind(std::panic::AssertUnwindSafe(move || compile(&rel, &q).0.ok));
+            qrlew::verif_abandon_after(0);
+            if res.is_err() {
+                fault(ctx, "caller_abandoned");
+            }
+            event(ctx, format!("{} abandon q{} after {} -> {}", who, qi, after, if res.is_err() { "abandoned" } else { "completed" }));
+        }
+    }
+}
+
+#[allow(clippy::too_many_arguments)]
+fn reparse_check(ctx: &Ctx, who: &str, qi: usize, r: &Relation, text: &str, c2: &Compiled, r2: &Option<Relation>, semantic: bool) {
+    let q = &ctx.wl.queries[qi];
+    if !c2.ok {
+        let class = if has_set_op(q) && c2.err.contains("Unknown table") { "set_operation_alias" } else { "unclassified" };
+        violation(
+            ctx,
+            "reparse_fails",
+            class,
+            format!("{}: the SQL rendered for `{}` is rejected by qrlew's own parser: {}", who, q, c2.err),
+            json!({"query": q, "rendered": text.chars().take(400).collect::<String>(), "error": c2.err}),
+        );
+        return;
+    }
+    let r2 = r2.as_ref().unwrap();
+    let (s1, s2) = (schema_string(r), schema_string(r2));
+    if s1 != s2 {
+        violation(
+            ctx,
+            "reparse_schema",
+            "unclassified",
+            format!("{}: re-parsing the SQL rendered for `{}` gives another output schema", who, q),
+            json!({"query": q, "schema": s1, "reparsed_schema": s2}),
+        );
+        return;
+    }
+    if semantic && !ctx.refs[qi].has_random {
+        let lq = q.to_lowercase();
+        if lq.contains(" limit ") || lq.contains(" offset ") {
+            probe(ctx, "semantic_skipped_limit");
+            return;
+        }
+        // execute both texts on the simulated engine (Sim-B's) over the instance
+        let tabs: Vec<&TableSpec> = ctx.wl.sc.tables.iter().chain(ctx.wl.sc.synthetic.iter()).collect();
+        let plan = DrawPlan::neutral(1).with_cap(DrawMode::Inc).with_row_id(DrawMode::Inc);
+        if let Ok(mut eng) = Engine::new(&tabs) {
+            let a = eng.query(&render_sim(r), &plan);
+            let b = eng.query(&render_sim(r2), &plan);
+            match (a, b) {
+                (Ok((ra, _)), Ok((rb, _))) => {
+                    // multiset equality with a floating-point tolerance (aggregates are summed in
+                    // a different row order by the two texts)
+                    let cell_eq = |a: &simcommon::scenario::Cell, b: &simcommon::scenario::Cell| -> bool {
+                        use simcommon::scenario::Cell as C;
+                        match (a, b) {
+                            (C::Float(_), _) | (_, C::Float(_)) => match (a.as_f64(), b.as_f64()) {
+                                (Some(x), Some(y)) => (x - y).abs() <= 1e-9 * (1.0 + x.abs().max(y.abs())),
+                                _ => false,
+                            },
+                            _ => a.key() == b.key(),
+                        }
+                    };
+                    let same_rows = |ra: &simcommon::engine::ResultSet, rb: &simcommon::engine::ResultSet| -> bool {
+                        if ra.rows.len() != rb.rows.len() {
+                            return false;
+                        }
+                        let mut used = vec![false; rb.rows.len()];
+                        for x in &ra.rows {
+                            let mut found = false;
+                            for (j, y) in rb.rows.iter().enumerate() {
+                                if !used[j] && x.len() == y.len() && x.iter().zip(y.iter()).all(|(a, b)| cell_eq(a, b)) {
+                                    used[j] = true;
+                                    found = true;
+                                    break;
+                                }
+                            }
+                            if !found {
+                                return false;
+                            }
+                        }
+                        true
+                    };
+                    probe(ctx, "semantic_compared");
+                    if !same_rows(&ra, &rb) && std::env::var("VERIF_DEBUG").is_ok() {
+                        eprintln!("SEMANTIC A: {:?}\nSEMANTIC B: {:?}\nSQL A: {}\nSQL B: {}", ra.rows, rb.rows, render_sim(r), render_sim(r2));
+                    }
+                    if !same_rows(&ra, &rb) {
+                        violation(
+                            ctx,
+                            "reparse_semantics",
+                            "unclassified",
+                            format!("{}: the relation of `{}` and the relation re-parsed from its rendering return different rows on the same instance", who, q),
+                            json!({"query": q, "rows": ra.rows.len(), "reparsed_rows": rb.rows.len()}),
+                        );
+                    }
+                }
+                _ => probe(ctx, "semantic_skipped_engine_gap"),
+            }
+        }
+    }
+}
+
+/// Quiescent single-threaded pass right after reset(): the reference table, plus the
+/// schedule-independent part of the fixpoint sentence (re-parse, schema, semantics).
+type RefOut = (qrlew::hierarchy::Hierarchy<Arc<Relation>>, Vec<Reference>, Vec<Violation>, BTreeMap<String, u64>);
+
+fn reference_pass(wl: &Workload) -> RefOut {
+    let out: Arc<Mutex<Option<RefOut>>> = Arc::new(Mutex::new(None));
+    let out2 = out.clone();
+    let wl2 = wl.clone();
+    let mut cfg = shuttle::Config::new();
+    cfg.stack_size = 256 << 20;
+    cfg.failure_persistence = shuttle::FailurePersistence::None;
+    let runner = shuttle::Runner::new(shuttle::scheduler::RandomScheduler::new_from_seed(1, 1), cfg);
+    runner.run(move || {
+        namer::reset();
+        // every call into qrlew happens inside a simulated execution (its lock and preemption
+        // points belong to the scheduler), the catalogue construction included
+        let rel2 = wl2.sc.relations();
+        let mut refs = vec![];
+        for q in &wl2.queries {
+            let (c, r) = compile(&rel2, q);
+            refs.push(Reference {
+                has_random: has_random(q),
+                canon_display: canonicalise(&c.display),
+                canon_sql: canonicalise(&c.sql),
+                c,
+                relation: r,
+            });
+        }
+        let ctx = Ctx { wl: wl2.clone(), relations: rel2.clone(), refs: refs.clone(), shared: Arc::new(Mutex::new(Shared::default())) };
+        // determinism inside the quiescent pass itself: a second parse of every query
+        for (qi, q) in wl2.queries.iter().enumerate() {
+            let (c, r) = compile(&rel2, q);
+            check_against_ref(&ctx, "reference-second-pass", qi, &c, &r);
+            if let Some(r) = &refs[qi].relation {
+                let text = ast::Query::from(r).to_string();
+                let (c2, r2) = compile(&rel2, &text);
+                reparse_check(&ctx, "reference", qi, r, &text, &c2, &r2, true);
+            }
+        }
+        let sh = ctx.shared.lock().unwrap();
+        *out2.lock().unwrap() = Some((rel2.clone(), refs, sh.violations.clone(), sh.probes.clone()));
+    });
+    let r = out.lock().unwrap().take().expect("reference pass did not run");
+    r
+}
+
+#[derive(Serialize, Deserialize, Clone, Debug)]
+pub struct RunRecord {
+    pub seed: u64,
+    pub run: u64,
+    pub property: String,
+    pub verdict: serde_json::Value,
+    pub shape: Option<String>,
+    pub tags: Vec<String>,
+    pub stats: serde_json::Value,
+    pub digest: String,
+    /// digest of the reference table (hash-seed sweep compares these across hash seeds)
+    pub ref_digest: String,
+    pub notes: Vec<String>,
+    pub workload: Option<Workload>,
+}
+
+fn run_one(wl: Workload, keep: bool) -> RunRecord {
+    std::env::set_var("VERIF_HASH_SEED", wl.sc.compile.hash_seed.to_string());
+    let handle = std::thread::Builder::new()
+        .stack_size(512 << 20)
+        .spawn(move || {
+            let (relations, refs, mut violations, mut probes) = reference_pass(&wl);
+            let ref_digest = {
+                let mut h = String::new();
+                for r in &refs {
+                    h.push_str(&format!("{}|{}|{}|{}\n", r.c.ok, r.canon_display, r.canon_sql, canonicalise(&r.c.schema)));
+                }
+                format!("{:016x}", hash64(&h))
+            };
+            let shared = Arc::new(Mutex::new(Shared::default()));
+            let ctx = Arc::new(Ctx { wl: wl.clone(), relations, refs, shared: shared.clone() });
+            let mut cfg = shuttle::Config::new();
+            cfg.stack_size = 256 << 20;
+            cfg.failure_persistence = shuttle::FailurePersistence::None;
+            cfg.max_steps = shuttle::MaxSteps::FailAfter(5_000_000);
+            let ctx2 = ctx.clone();
+            let body = move || {
+                namer::reset();
+                let mut hs = vec![];
+                for (ti, ops) in ctx2.wl.threads.iter().enumerate() {
+                    let c3 = ctx2.clone();
+                    let ops = ops.clone();
+                    hs.push(shuttle::thread::spawn(move || {
+                        let who = format!("t{}", ti);
+                        for op in &ops {
+                            exec_op(&c3, &who, op);
+                        }
+                    }));
+                }
+                for h in hs {
+                    h.join().unwrap();
+                }
+            };
+            let res = std::panic::catch_unwind(std::panic::AssertUnwindSafe(|| match &wl.sched {
+                Sched::Random(s) => {
+                    shuttle::Runner::new(shuttle::scheduler::RandomScheduler::new_from_seed(*s, 1), cfg).run(body);
+                }
+                Sched::Pct(s, d) => {
+                    shuttle::Runner::new(shuttle::scheduler::PctScheduler::new_from_seed(*s, *d, 1), cfg).run(body);
+                }
+            }));
+            let sh = shared.lock().unwrap();
+            violations.extend(sh.violations.clone());
+            if let Err(p) = res {
+                let msg = if let Some(s) = p.downcast_ref::<String>() { s.clone() } else if let Some(s) = p.downcast_ref::<&str>() { s.to_string() } else { "<panic>".into() };
+                violations.push(Violation {
+                    property: "C16".into(),
+                    invariant: "no_progress_or_panic".into(),
+                    class: "unclassified".into(),
+                    detail: format!("the concurrent history did not run to completion under the scheduler: {}", first_line(&msg)),
+                    witness: json!({"message": msg.chars().take(600).collect::<String>()}),
+                });
+            }
+            for (k, v) in &sh.probes {
+                *probes.entry(k.clone()).or_default() += v;
+            }
+            // probe: ids handed out per prefix since the last reset are distinct
+            for (_, ids) in sh.ids.iter() {
+                let mut s = ids.clone();
+                s.sort();
+                s.dedup();
+                if s.len() != ids.len() {
+                    *probes.entry("duplicate_ids_between_resets".into()).or_default() += 1;
+                }
+            }
+            let mut log = vec![format!("run seed={} run={}", wl.seed, wl.run), format!("ref {}", ref_digest)];
+            log.extend(sh.events.iter().cloned());
+            let sched_hash = hash64(&sh.events.iter().map(|e| e.split(' ').next().unwrap_or("").to_string()).collect::<Vec<_>>().join(""));
+            let n_ops: usize = wl.threads.iter().map(|t| t.len()).sum();
+            let mut faults = sh.faults.clone();
+            *faults.entry(format!("scheduler_{}", match wl.sched { Sched::Random(_) => "random", Sched::Pct(_, _) => "pct" })).or_default() += 1;
+            *faults.entry("hash_seed".into()).or_default() += 1;
+            let shape = format!(
+                "k{}|{}|{}|q{}",
+                wl.threads.len(),
+                match wl.sched { Sched::Random(_) => "random", Sched::Pct(_, _) => "pct" },
+                {
+                    let mut kinds: Vec<&str> = wl.threads.iter().flatten().map(|o| o.kind()).collect();
+                    kinds.sort();
+                    kinds.dedup();
+                    kinds.join(",")
+                },
+                {
+                    // which kinds of query the history compiles
+                    let mut f = vec![];
+                    if wl.queries.iter().any(|q| has_random(q)) { f.push("rnd"); }
+                    if wl.queries.iter().any(|q| has_set_op(q)) { f.push("set"); }
+                    if wl.queries.iter().any(|q| q.to_lowercase().contains(" join ")) { f.push("join"); }
+                    if wl.queries.iter().any(|q| q.to_lowercase().starts_with("with ")) { f.push("cte"); }
+                    f.join("+")
+                }
+            );
+            let verdict = if violations.is_empty() { json!("Ok") } else { json!({"Violations": violations}) };
+            let is_ok = violations.is_empty();
+            RunRecord {
+                seed: wl.seed,
+                run: wl.run,
+                property: "C16".into(),
+                verdict,
+                shape: Some(shape),
+                tags: wl.sc.tags.clone(),
+                stats: json!({"statements": 0, "draws": 0, "executions": 1, "faults": faults, "probes": probes, "ops": n_ops, "events": sh.events.len(), "interleaving": format!("{:016x}", sched_hash), "queries": wl.queries.len()}),
+                digest: format!("{:016x}", hash64(&log.join("\n"))),
+                ref_digest,
+                notes: if is_ok { vec![] } else { log },
+                workload: if keep || !is_ok { Some(wl) } else { None },
+            }
+        })
+        .unwrap();
+    handle.join().expect("run thread panicked (harness error)")
+}
+
+fn arg<'a>(args: &'a [String], name: &str) -> Option<&'a str> {
+    args.iter().position(|a| a == name).and_then(|i| args.get(i + 1)).map(|s| s.as_str())
+}
+
 fn main() {
-    println!("sim-a smoke");
+    let args: Vec<String> = std::env::args().collect();
+    std::panic::set_hook(Box::new(|_| {}));
+    match args.get(1).map(|s| s.as_str()) {
+        Some("run") => {
+            let seed: u64 = arg(&args, "--seed").unwrap_or("1").parse().unwrap();
+            let from: u64 = arg(&args, "--from").unwrap_or("0").parse().unwrap();
+            let to: u64 = arg(&args, "--to").unwrap_or("10").parse().unwrap();
+            let stride: u64 = arg(&args, "--stride").unwrap_or("1").parse().unwrap();
+            let offset: u64 = arg(&args, "--offset").unwrap_or("0").parse().unwrap();
+            let samples: u64 = arg(&args, "--samples").unwrap_or("1").parse().unwrap();
+            let hash_salt: u64 = arg(&args, "--hash-salt").unwrap_or("0").parse().unwrap();
+            let single: bool = args.iter().any(|a| a == "--single-thread");
+            let deadline: Option<f64> = arg(&args, "--deadline-s").map(|s| s.parse().unwrap());
+            let out_path = arg(&args, "--out").expect("--out");
+            let mut out = std::io::BufWriter::new(std::fs::File::create(out_path).unwrap());
+            let start = std::time::Instant::now();
+            let mut kept = 0;
+            let mut i = from + offset;
+            while i < to {
+                if let Some(d) = deadline {
+                    if start.elapsed().as_secs_f64() > d {
+                        break;
+                    }
+                }
+                let mut wl = workload::generate(seed, i);
+                if hash_salt != 0 {
+                    wl.sc.compile.hash_seed ^= hash_salt.wrapping_mul(0x9e3779b97f4a7c15) >> 1;
+                }
+                if single {
+                    // the hash-seed sweep replays the history single-threaded
+                    let all: Vec<Op> = wl.threads.iter().flatten().cloned().collect();
+                    wl.threads = vec![all];
+                }
+                let keep = kept < samples;
+                let rec = run_one(wl, keep);
+                if rec.workload.is_some() && rec.verdict == json!("Ok") {
+                    kept += 1;
+                }
+                serde_json::to_writer(&mut out, &rec).unwrap();
+                out.write_all(b"\n").unwrap();
+                i += stride;
+            }
+            out.flush().unwrap();
+        }
+        Some("replay") => {
+            let file = arg(&args, "--file").expect("--file");
+            let v: serde_json::Value = serde_json::from_str(&std::fs::read_to_string(file).unwrap()).unwrap();
+            let wl: Workload = serde_json::from_value(v["workload"].clone()).expect("workload");
+            let rec = run_one(wl, true);
+            println!("{}", serde_json::to_string(&rec).unwrap());
+            if rec.verdict != json!("Ok") {
+                std::process::exit(1);
+            }
+        }
+        Some("minimise") => {
+            let file = arg(&args, "--file").expect("--file");
+            let out = arg(&args, "--out").expect("--out");
+            let v: serde_json::Value = serde_json::from_str(&std::fs::read_to_string(file).unwrap()).unwrap();
+            let wl: Workload = serde_json::from_value(v["workload"].clone()).expect("workload");
+            let invariant = v["invariant"].as_str().unwrap().to_string();
+            let class = v["class"].as_str().unwrap().to_string();
+            let (small, tried) = workload::minimise(wl, &invariant, &class, |w| run_one(w, true));
+            let rec = run_one(small, true);
+            let mut o = serde_json::to_value(&rec).unwrap();
+            o["invariant"] = json!(invariant);
+            o["class"] = json!(class);
+            o["minimise_candidates"] = json!(tried);
+            std::fs::write(out, serde_json::to_string_pretty(&o).unwrap()).unwrap();
+        }
+        _ => {
+            eprintln!("usage: sim-a run|replay|minimise ...");
+            std::process::exit(2);
+        }
+    }
 }
